@@ -65,6 +65,24 @@ Definition s_bad_for_client (t : tkind) (tx : N) (f : bytes) : bool :=
   | TCP => (length f <? 9)%nat || negb (s_tcp_txid f =? tx)
   end.
 
+(* a read response of "short length": a well-framed answer to a read, with the function code asked for, whose payload
+   is shorter than the byte count it announces (registers: whole registers of that count) *)
+Definition s_resp_pdu (t : tkind) (g : bytes) : option pdu :=
+  match t with
+  | TCP => match skipn 7 g with fc :: d => Some (fc, d) | [] => None end
+  | RTU => match s_rtu_parse g with Some (_, p) => Some p | None => None end
+  end.
+Definition s_short_read (t : tkind) (g : bytes) (k : N) (fc : N) : bool :=
+  match s_resp_pdu t g with
+  | Some (fc', d) =>
+      (fc' =? fc) &&
+      match d with
+      | [] => true
+      | n :: rest => if k <? 2 then (len rest <? n) else (len rest <? 2 * (n / 2))
+      end
+  | None => false
+  end.
+
 (* the calls of the client API: 0 ReadCoils 1 ReadDiscreteInputs 2 ReadHoldingRegs 3 ReadInputRegs
    4 WriteSingleCoil (arg 0/1) 5 WriteSingleReg *)
 Definition s_request (k a b : N) : pdu :=
@@ -191,6 +209,8 @@ Definition spec_op (t : tkind) (sid : N) (tx : N) (rs : regs) (o : opc) : sres :
                   then (if result_is o e then SNext tx' rs' else SFail)
                   else if s_bad_for_client t tx' g
                        then (if result_is o None then SNext tx' rs' else SFail)
+                       else if (o_kind o <? 4) && s_short_read t g (o_kind o) (fst req)
+                       then (if result_is o None then SNext tx' rs' else SFail)   (* short length: rejected *)
                        else if (4 <=? o_kind o) && negb (result_is o None)
                        then SFail                    (* a write is confirmed only by the exact acknowledgement *)
                        else SNext tx' rs'            (* damage to a read response no receiver can detect: not constrained *)
